@@ -446,6 +446,39 @@ def bounded(tier, seed, R):
                 want = call(None, a, op, b)
                 return type(got) is type(want) and (got == want or (got != got and want != want))
             R.guard('bounded/fixup_is_a_function_of_its_operands', chk, {'left': a, 'op': op, 'right': b, 'round': rep})
+    # numeric text is text WRITTEN like a number (an independent scanner, not python's float()): everything else is
+    # "other text" and gives #VALUE! in arithmetic - also nan, inf, 1_0, hexadecimal, digits of other scripts, 1e400
+    def written_like_a_number(t):
+        t = t.strip(' \t\n\r\x0b\x0c')
+        if t[:1] in '+-':
+            t = t[1:]
+        mant, _, expo = t.lower().partition('e')
+        if 'e' in t.lower():
+            if expo[:1] in '+-':
+                expo = expo[1:]
+            if not expo or any(ch not in '0123456789' for ch in expo):
+                return False
+        ip, dot, fp = mant.partition('.')
+        if any(ch not in '0123456789' for ch in ip + fp) or not (ip or fp):
+            return False
+        try:
+            return abs(float(t)) < float('inf')
+        except (ValueError, OverflowError):
+            return False
+    texts = ['nan', 'NaN', 'inf', '-inf', 'Infinity', '+infinity', '1_0', '1__0', '_1', '0x10', '0b1', '1e400', '-1e999',
+             '\u0661\u0661', '\uff11', '1e', 'e1', '1e+', '.', '+', '-', '+.e1', '--1', '1 2', '1,000', '$3', '3%', '',
+             ' ', '1', ' 1', '1 ', '\t1\n', '007', '+7', '-7', '.5', '5.', '-.5', '1e3', '1E3', '1e-3', '1.5e+2', '12.5',
+             '1e30', 'abc', '1a', 'a1']      # (not "TRUE" / "FALSE": logical text counts as 1 / 0 in arithmetic)
+    for t in texts:
+        for op, other in (('Add', 1), ('Mult', 2), ('Sub', 0.5), ('Div', 4)):
+            def chk():
+                r1, r2 = shared(t, op, other), shared(other, op, t)
+                if written_like_a_number(t):
+                    return not isinstance(r1, str) and not isinstance(r2, str) and r1 == r1 and abs(r1) < float('inf')
+                return r1 == VALUE_ERROR and r2 == VALUE_ERROR
+            R.guard('bounded/numeric_text_is_written_like_a_number', chk, {'text': t, 'op': op, 'other': other})
+        R.guard('bounded/numeric_text_is_written_like_a_number',
+                lambda: shared(t, 'Eq', t) is True and isinstance(shared(t, 'Lt', 1), bool), {'text': t, 'op': 'Eq/Lt'})
     vals = [v for v in POOL if not is_err(v) and not is_blank(v)]
     triples = list(itertools.product(vals, repeat=3))
     if tier != 'thorough':
